@@ -112,6 +112,14 @@ def run(tier):
         chk.clause('C20.D1', 'R3 oracle of the bridge per request')
         chk.clause('C20.D2', 'R10 caller arrays never written')
         kernels.run_factor(chk, 'C20.kern', prog, cfgname)
+        from ..rules import r12_supernodal as _r12
+        chk.clause('C20.kern.index', 'abstract interpretation of the supernodal update kernels in a polynomial index domain: every access to the supernode block is the entry the algebra needs')
+        for _p in 'ds':
+            _r12.run(chk, 'C20.kern.index', prog, _p, cfgname)
+            _r12.run_snode(chk, 'C20.kern.index', prog, _p, cfgname)
+        from ..rules import expand as _expand
+        chk.clause('C20.kern.copy', 'growth of factor storage carries the old contents over')
+        _expand.copy_helper_rule(chk, 'C20.kern.copy', prog, cfgname)
         # the bridge always orders with COLAMD and post-orders: the perm_c it stores in the handle must be post o perm_c
         from ..rules import preorder as _pre
         chk.clause('C20.preorder', 'R3 oracle of sp_preorder (the handle keeps its perm_c)')
